@@ -121,6 +121,57 @@ func cmdViews() {
 				}
 			}
 		}
+		// the other sections (transitions, direct-read, read and follow sets): the entries as data (sets in the
+		// stored order) and the printed lines
+		trs := v.VerifTrans()
+		byIdx := map[int]int{}
+		for i, tr := range trs {
+			byIdx[tr.Index] = i
+			k := 0
+			if tr.IsReduce {
+				k = 1
+			}
+			fmt.Fprintf(w, "LTR %d %d %d\n", tr.Q, k, tr.SymOrRule)
+		}
+		for _, sec := range []struct {
+			tag string
+			m   map[int][]int
+		}{{"LDR", v.DRSet}, {"LRD", v.ReadSet}, {"LFO", v.FollowSet}} {
+			keys := []int{}
+			for k := range sec.m {
+				keys = append(keys, k)
+			}
+			sort.Ints(keys)
+			for _, k := range keys {
+				if i, ok := byIdx[k]; ok && !trs[i].IsReduce {
+					fmt.Fprintf(w, "%s %d %d %s\n", sec.tag, trs[i].Q, trs[i].SymOrRule, ints(sec.m[k]))
+				} else {
+					fmt.Fprintf(w, "%s -1 -1 %d\n", sec.tag, k) // a key that is no shift/goto transition
+				}
+			}
+		}
+		heads := []string{"===========SHOW TRANS================\n", "==========Show Direct Read SET===============\n",
+			"==========Show Reads SET===============\n", "==========Show FollowSet SET===============\n",
+			"==========Show LookAhead SET===============\n"}
+		for si, tag := range []string{"HLISTTR", "HLISTDR", "HLISTRD", "HLISTFO"} {
+			i := strings.Index(out, heads[si])
+			if i < 0 {
+				fmt.Fprintf(w, "%s-MISSING\n", tag)
+				continue
+			}
+			sec := out[i+len(heads[si]):]
+			j := strings.Index(sec, heads[si+1])
+			if j < 0 {
+				fmt.Fprintf(w, "%s-MISSING\n", tag)
+				continue
+			}
+			if sec[:j] == "" {
+				continue
+			}
+			for _, l := range strings.Split(strings.TrimSuffix(sec[:j], "\n"), "\n") {
+				fmt.Fprintf(w, "%s %s\n", tag, hex.EncodeToString([]byte(l)))
+			}
+		}
 		if i := strings.Index(out, "==========Show LookAhead SET===============\n"); i >= 0 {
 			sec := strings.Split(out[i+len("==========Show LookAhead SET===============\n"):], "\n")
 			for k := 0; k < len(las) && k < len(sec); k++ {
